@@ -284,6 +284,9 @@ def run_unit(unit):
         singles.append(('dummy', (j,)))
     for s in (0.01, 0.5, 3.0, 100.0):
         singles.append(('scale', (s,)))
+    # a change of unit by eight orders of magnitude (a finite object distance of a few hundred becomes > 1e10 and stays finite)
+    if unit['cfg'] in ('finite', 'finite-angle') and all(q['shape'] in ('sphere', 'plane', 'conic') for q in sp['surfs']):
+        singles.append(('scale', (1e8,)))
 
     def do(spx, kind, args):
         if kind == 'tilt':
